@@ -48,3 +48,9 @@ Definition chk_dec_eq (a b : dec) (r : bool) : bool := Bool.eqb (dec_eqb a b) r.
 (* UUID *)
 Definition chk_uuid (n : Z) (bytes : list Z) : bool := str_eqb (uuid_py2sql n) bytes && optz_eqb (uuid_sql2py bytes) (Some n).
 Definition chk_bool (b : bool) (z : Z) : bool := (bool_py2sql b =? z) && Bool.eqb (bool_sql2py z) b.
+
+(* JsonConverter.validate / ArrayConverter.validate on tracked values: expected = (kept as is?, notified (owner, attr)) *)
+Definition chk_json_validate (obj attr : Z) (v : tval) (kept : bool) (owner oattr : Z) : bool :=
+  Bool.eqb (json_keeps obj attr v) kept && opt_eqb (fun a b => (fst a =? fst b) && (snd a =? snd b)) (tv_notifies (json_validate obj attr v)) (Some (owner, oattr)).
+Definition chk_array_validate (obj attr : Z) (v : tval) (kept : bool) (owner oattr : Z) : bool :=
+  Bool.eqb (array_keeps obj attr v) kept && opt_eqb (fun a b => (fst a =? fst b) && (snd a =? snd b)) (tv_notifies (array_validate obj attr v)) (Some (owner, oattr)).
